@@ -37,6 +37,7 @@ type Profile struct {
 	LocationAbs    bool `json:"locationAbs,omitempty"`    // upload Location is an absolute URL
 	EmptyLastPage  bool `json:"emptyLastPage,omitempty"`  // listings end with a Link to an empty page
 	ChunkedLists   bool `json:"chunkedLists,omitempty"`   // listing documents are sent without Content-Length
+	OmitEmptyList  bool `json:"omitEmptyList,omitempty"`  // an empty page leaves the list member out ("{}", as omitempty encoders do)
 }
 
 // Manifest is a stored manifest.
@@ -605,8 +606,8 @@ func (r *Registry) manifest(req *http.Request, rec *ReqRecord, name, ref string)
 
 // pad brings a JSON object document to exactly r.PadJSON bytes.
 func (r *Registry) pad(b []byte) []byte {
-	if r.PadJSON <= 0 || len(b)+9 > r.PadJSON || len(b) < 2 || b[0] != '{' {
-		return b
+	if r.PadJSON <= 0 || len(b)+9 > r.PadJSON || len(b) < 3 || b[0] != '{' {
+		return b // (an empty object "{}" is left alone)
 	}
 	// {"pad":"xxx",<rest>
 	n := r.PadJSON - len(b) - 9
@@ -694,6 +695,9 @@ func (r *Registry) tags(req *http.Request, rec *ReqRecord, name string) *http.Re
 		out = []string{}
 	}
 	b, _ := json.Marshal(map[string]any{"name": name, "tags": out})
+	if r.P.OmitEmptyList && len(out) == 0 {
+		b, _ = json.Marshal(map[string]any{"name": name})
+	}
 	b = r.pad(b)
 	h := jsonHdr()
 	if more || (r.P.EmptyLastPage && len(out) > 0) {
@@ -715,6 +719,9 @@ func (r *Registry) catalog(req *http.Request, rec *ReqRecord) *http.Response {
 		out = []string{}
 	}
 	b, _ := json.Marshal(map[string]any{"repositories": out})
+	if r.P.OmitEmptyList && len(out) == 0 {
+		b = []byte("{}")
+	}
 	b = r.pad(b)
 	h := jsonHdr()
 	if more || (r.P.EmptyLastPage && len(out) > 0) {
